@@ -1,6 +1,12 @@
 use std::cell::RefCell;
 use std::marker::PhantomData;
+#[cfg(not(folo_verif))]
 use std::sync::{Arc, LazyLock, RwLock};
+#[cfg(folo_verif)]
+use std::sync::{Arc, LazyLock};
+
+#[cfg(folo_verif)]
+use crate::verif_hook::RwLock;
 use std::thread::{self, ThreadId};
 
 use crate::{ERR_POISONED_LOCK, EventName, HashMap, ObservationBagSync, Observations};
@@ -98,8 +104,6 @@ impl GlobalEventRegistry {
     ) {
         // Most likely the thread is already registered, so we try being optimistic.
         {
-            #[cfg(folo_verif)]
-            crate::verif_hook::point("registry.register:state.read");
             let state = self.state.read().expect(ERR_POISONED_LOCK);
 
             if let Some(thread_bags) = state.thread_observation_bags.get(&thread_id) {
@@ -109,8 +113,6 @@ impl GlobalEventRegistry {
         }
 
         // The thread was not registered. Let us register it now.
-        #[cfg(folo_verif)]
-        crate::verif_hook::point("registry.register:state.write");
         let mut state = self.state.write().expect(ERR_POISONED_LOCK);
 
         let thread_bags = state
@@ -122,8 +124,6 @@ impl GlobalEventRegistry {
     }
 
     fn unregister_thread(&self, thread_id: ThreadId) {
-        #[cfg(folo_verif)]
-        crate::verif_hook::point("registry.unregister_thread:state.write");
         let mut state = self.state.write().expect(ERR_POISONED_LOCK);
 
         // After removing the data of the unregistered thread, we need to
@@ -154,8 +154,6 @@ impl GlobalEventRegistry {
     /// This takes read locks, so the callback must not attempt to perform any operations
     /// that may want to register new events, under threat of deadlock.
     pub(crate) fn inspect(&self, mut f: impl FnMut(&ObservationBagMap)) {
-        #[cfg(folo_verif)]
-        crate::verif_hook::point("registry.inspect:state.read");
         let state = self.state.read().expect(ERR_POISONED_LOCK);
 
         for thread_bags in state.thread_observation_bags.values() {
